@@ -37,3 +37,27 @@ fn marks_ltr() {
     assert!(pos[2].y_offset == before[2].y_offset + before[0].y_offset - (before[0].vert_advance + before[1].vert_advance));
     assert!(pos[1].hori_advance == before[1].hori_advance && pos[2].hori_advance == before[2].hori_advance, "advances are untouched");
 }
+
+fn index_case(placement: Placement, k: usize) {
+    let mut font = crate::font::verif_C03_cache::test_font();
+    let infos = [mk(1, Placement::None), mk(2, placement)];
+    let mut layout = GlyphLayout::new(&mut font, &infos, TextDirection::LeftToRight, false);
+    match layout.glyph_positions() {
+        Ok(p) => assert!(k < 2 && p.len() == 2, "an attachment inside the run is laid out"),
+        Err(e) => assert!(k >= 2 && e == ParseError::BadIndex, "an attachment that refers outside the run is reported as BadIndex, never a panic"),
+    }
+}
+
+//@ harness attachment_indices kind=bounded:2glyphs fns=GlyphLayout::glyph_positions,GlyphLayout::position_marks,GlyphLayout::adjust_cursive_connections,glyph_advance,glyph_info::advance timeout=900 props=C02,C05
+#[kani::proof]
+#[kani::unwind(6)]
+fn attachment_indices() {
+    // C02: every attachment in the returned run refers to a glyph inside the run; anything else is an error
+    let k: usize = kani::any();
+    let a = Anchor { x: kani::any(), y: kani::any() };
+    match kani::any::<u8>() % 3 {
+        0 => index_case(Placement::MarkOverprint(k), k),
+        1 => index_case(Placement::MarkAnchor(k, a, a), k),
+        _ => index_case(Placement::CursiveAnchor(k, kani::any(), a, a), k),
+    }
+}
